@@ -102,12 +102,13 @@ enum Entry {
     OpenCmd { x: u8, y: u8, ok: bool, err: String },
     CloseCmd { x: u8, y: u8 },
     SendCmd { x: u8, y: u8, ok: bool, err: String, api: &'static str },
-    Validate { x: u8, y: u8 },
+    /// `hs` = the remote handshake carried by the inbound substream (every open command uses a fresh one)
+    Validate { x: u8, y: u8, hs: Vec<u8> },
     /// answer given at once by the policy (`Defer` = none yet)
     Answer { x: u8, y: u8, ans: Ans },
     /// late answer; `pending` = the user task did hold an unanswered validation request for `y`
     LateAnswer { x: u8, y: u8, accept: bool, pending: bool },
-    Opened { x: u8, y: u8, inbound: bool },
+    Opened { x: u8, y: u8, inbound: bool, hs: Vec<u8> },
     Closed { x: u8, y: u8 },
     OpenFailure { x: u8, y: u8, error: String },
     Received { x: u8, y: u8, data: Vec<u8> },
@@ -123,10 +124,10 @@ impl Entry {
             Entry::OpenCmd { x, y, ok, .. } => format!("{}o{}{}", n(x), n(y), if *ok { "" } else { "!" }),
             Entry::CloseCmd { x, y } => format!("{}c{}", n(x), n(y)),
             Entry::SendCmd { x, y, ok, .. } => format!("{}s{}{}", n(x), n(y), if *ok { "" } else { "!" }),
-            Entry::Validate { x, y } => format!("{}V{}", n(x), n(y)),
+            Entry::Validate { x, y, .. } => format!("{}V{}", n(x), n(y)),
             Entry::Answer { x, y, ans } => format!("{}{}{}", n(x), match ans { Ans::Accept => "+", Ans::Reject => "-", Ans::Defer => "~" }, n(y)),
             Entry::LateAnswer { x, y, accept, pending } => format!("{}L{}{}{}", n(x), if *accept { "+" } else { "-" }, n(y), if *pending { "" } else { "0" }),
-            Entry::Opened { x, y, inbound } => format!("{}O{}{}", n(x), n(y), if *inbound { "i" } else { "o" }),
+            Entry::Opened { x, y, inbound, .. } => format!("{}O{}{}", n(x), n(y), if *inbound { "i" } else { "o" }),
             Entry::Closed { x, y } => format!("{}X{}", n(x), n(y)),
             Entry::OpenFailure { x, y, error } => format!("{}F{}:{}", n(x), n(y), error),
             Entry::Received { x, y, data } => format!("{}R{}:{}", n(x), n(y), data.len()),
@@ -172,16 +173,23 @@ fn spawn_user(w: &mut World, node: u8, mut handle: NotificationHandle, peers: [P
         let in_pair = |y: u8| (x == A && y == B) || (x == B && y == A);
         let mut validations = 0usize;
         let mut deferred: BTreeSet<u8> = BTreeSet::new();
+        // every open command announces a fresh handshake, so that a validation request and the stream that is finally
+        // opened can be matched to each other
+        let mut opens = 0u8;
         loop {
             tokio::select! {
                 biased;
                 cmd = rx.recv() => match cmd {
                     None => return,
                     Some(UCmd::Open(y)) => {
+                        opens += 1;
+                        handle.set_handshake(vec![x, opens]);
                         let r = handle.open_substream(peers[y as usize]).await;
                         log.lock().push(Entry::OpenCmd { x, y, ok: r.is_ok(), err: r.err().map(|e| format!("{e:?}")).unwrap_or_default() });
                     }
                     Some(UCmd::TryOpen(y)) => {
+                        opens += 1;
+                        handle.set_handshake(vec![x, opens]);
                         let r = handle.try_open_substream_batch(std::iter::once(peers[y as usize]));
                         log.lock().push(Entry::OpenCmd { x, y, ok: r.is_ok(), err: r.err().map(|e| format!("refused for {} peer(s)", e.len())).unwrap_or_default() });
                     }
@@ -205,9 +213,9 @@ fn spawn_user(w: &mut World, node: u8, mut handle: NotificationHandle, peers: [P
                 },
                 ev = handle.next() => match ev {
                     None => return,
-                    Some(NotificationEvent::ValidateSubstream { peer, .. }) => {
+                    Some(NotificationEvent::ValidateSubstream { peer, handshake, .. }) => {
                         let y = idx(&peer);
-                        log.lock().push(Entry::Validate { x, y });
+                        log.lock().push(Entry::Validate { x, y, hs: handshake });
                         let ans = if in_pair(y) {
                             let a = policy[validations.min(policy.len() - 1)];
                             validations += 1;
@@ -222,8 +230,8 @@ fn spawn_user(w: &mut World, node: u8, mut handle: NotificationHandle, peers: [P
                         }
                         log.lock().push(Entry::Answer { x, y, ans });
                     }
-                    Some(NotificationEvent::NotificationStreamOpened { peer, direction, .. }) =>
-                        log.lock().push(Entry::Opened { x, y: idx(&peer), inbound: direction == Direction::Inbound }),
+                    Some(NotificationEvent::NotificationStreamOpened { peer, direction, handshake, .. }) =>
+                        log.lock().push(Entry::Opened { x, y: idx(&peer), inbound: direction == Direction::Inbound, hs: handshake }),
                     Some(NotificationEvent::NotificationStreamClosed { peer }) =>
                         log.lock().push(Entry::Closed { x, y: idx(&peer) }),
                     Some(NotificationEvent::NotificationStreamOpenFailure { peer, error }) =>
@@ -260,6 +268,8 @@ struct View {
     /// result later, so a merged command leaves a stale cause behind, which can only hide an unsolicited result,
     /// never invent one.
     open_causes: usize,
+    /// validation requests shown to this user for that peer: (remote handshake, answer if any)
+    validations: Vec<(Vec<u8>, Option<bool>)>,
     /// an accepted open command is still waiting for its result (for the local idleness test)
     outstanding: bool,
     last_owed: Option<usize>,
@@ -347,18 +357,50 @@ fn oracle(log: &[Entry], scn: &NotifScenario, ab_live_at_end: bool) -> Vec<Viol>
                     SEND_OK_WHILE_CLOSED.fetch_add(1, std::sync::atomic::Ordering::Relaxed);
                 }
             }
-            Entry::Validate { x, y } => {
+            Entry::Validate { x, y, hs } => {
                 let me = &mut v[cl(*x)][cl(*y)];
                 me.unanswered_validation = Some(i);
                 me.accepted = false;
+                me.validations.push((hs.clone(), None));
             }
-            Entry::Answer { x, y, ans } => answer(&mut v[cl(*x)][cl(*y)], &mut owed, *ans),
+            Entry::Answer { x, y, ans } => {
+                let me = &mut v[cl(*x)][cl(*y)];
+                if *ans != Ans::Defer {
+                    if let Some(last) = me.validations.last_mut() {
+                        last.1 = Some(*ans == Ans::Accept);
+                    }
+                }
+                answer(me, &mut owed, *ans)
+            }
             Entry::LateAnswer { x, y, accept, pending } => {
                 if *pending {
-                    answer(&mut v[cl(*x)][cl(*y)], &mut owed, if *accept { Ans::Accept } else { Ans::Reject });
+                    // `send_validation_result(peer, ..)` answers the request the handle polled last for that peer
+                    let me = &mut v[cl(*x)][cl(*y)];
+                    if let Some(last) = me.validations.last_mut() {
+                        if last.1.is_none() {
+                            last.1 = Some(*accept);
+                        }
+                    }
+                    answer(me, &mut owed, if *accept { Ans::Accept } else { Ans::Reject });
                 }
             }
-            Entry::Opened { x, y, inbound } => {
+            Entry::Opened { x, y, inbound, hs } => {
+                if *inbound && !auto(*x) {
+                    // "an inbound stream is opened only after the user accepted IT": the stream carries the handshake
+                    // of one particular open attempt of the remote
+                    let me = &v[cl(*x)][cl(*y)];
+                    if let Some((_, answer)) = me.validations.iter().rev().find(|(h, _)| h == hs) {
+                        if *answer != Some(true) {
+                            out.push(Viol::new(
+                                "notif/inbound-opened-although-that-substream-was-not-accepted",
+                                format!(
+                                    "{}: NotificationStreamOpened (inbound) from {} with handshake {hs:?}: the validation request for that very substream was answered {:?} by {}'s user (an Accept meant for an older request of the same peer was applied to it?); {}",
+                                    name(*x), name(*y), answer.map(|a| if a { "Accept" } else { "Reject" }), name(*x), ctx(i)
+                                ),
+                            ));
+                        }
+                    }
+                }
                 let link_down = in_ab(*x, *y) && !ab_up;
                 let me = &mut v[cl(*x)][cl(*y)];
                 if me.open {
@@ -771,6 +813,10 @@ pub fn scenarios(thorough: bool) -> Vec<(NotifScenario, usize)> {
         scn(&[HOLD_A, AO, BO, FREE_A], acc, acc, false, false),
         scn(&[HOLD_A, AO, AC, AO, FREE_A], acc, acc, false, false),
         scn(&[HOLD_A, AO, CUT, FREE_A], acc, acc, false, false),
+        // a validation request left unanswered across two disconnects, a fresh open attempt, then the late answer: it
+        // must not be applied to the new substream, which B's user turns down
+        scn(&[AO, CUT, REC, CUT, REC, AO, B_ACC], acc, &[Defer, Reject], false, false),
+        scn(&[AO, CUT, REC, AO, B_ACC], acc, &[Defer, Reject], false, false),
         // notifications
         scn(&[AO, AS, AC], acc, acc, false, false),
         scn(&[AO, BS, BC], acc, acc, true, false),
